@@ -42,9 +42,14 @@ func SendPing(ctx context.Context, s NetcForPing, target string, hopsToLive byte
 	errorChan := make(chan errorResult)
 	go func() {
 		for msg := range unrCh {
-			errorChan <- errorResult{
+			select {
+			case errorChan <- errorResult{
 				err:      fmt.Errorf(msg.Problem), //nolint:govet
 				fromNode: msg.ReceivedFromNode,
+			}:
+			case <-ctxPing.Done():
+				// the ping is over, nobody reads errorChan any more
+				return
 			}
 		}
 	}()
@@ -70,7 +75,7 @@ func SendPing(ctx context.Context, s NetcForPing, target string, hopsToLive byte
 				err:      err,
 				fromNode: fromNode,
 			}:
-			case <-ctx.Done():
+			case <-ctxPing.Done():
 			case <-s.Context().Done():
 			}
 		}
